@@ -59,7 +59,10 @@ Definition g_item {A} (f : sx -> A) (s : sx) : item A :=
 Definition g_lunit {A} (f : sx -> A) (s : sx) : @lunit A :=
   let l := gL s in
   {| lu_is64 := gbool (nthx 0 l); lu_version := gI (nthx 1 l); lu_asz := gI (nthx 2 l);
-     lu_seg := gI (nthx 3 l); lu_index := g_list gnat (nthx 4 l); lu_items := g_list (g_item f) (nthx 5 l) |}.
+     lu_seg := gI (nthx 3 l); lu_index := g_list (fun x => match x with
+                                   | SL p => (gnat (nthx 0 p), gnat (nthx 1 p))   (* (list entry): tail from that entry *)
+                                   | _ => (gnat x, 0%nat)                         (* the whole list *)
+                                   end) (nthx 4 l); lu_items := g_list (g_item f) (nthx 5 l) |}.
 (* (is64 version asz seg (offsets...) #body) *)
 Definition g_unit (s : sx) : unit_blk :=
   let l := gL s in
@@ -96,6 +99,7 @@ Definition g_fval (s : sx) : fval :=
   | SL [SS "bool"; SI z] => FBool (negb (z =? 0))
   | SL l => FInts (map gI l)
   end.
+Definition g_tup (s : sx) : tup := (gS (nthx 0 (gL s)), map g_fval (tl (gL s))).
 Definition g_container (s : sx) : container :=
   map (fun p => (gS (nthx 0 (gL p)), g_fval (nthx 1 (gL p)))) (gL s).
 
@@ -209,6 +213,10 @@ Definition dispatch (req : sx) : sx :=
     let refs := gints a1 in
     SL (map (fun e => nthx 2 (gL e))
             (filter (fun e => existsb (Z.eqb (gI (nthx 0 (gL e)))) refs) (gL a2)))
+  else if op == "enum_designated" then
+    (* (op (refs...) ((start list_off (tups))...)) -> the lists the offsets designate (tail sharing allowed) *)
+    SL (map x_tups (enum_designated (gints a1)
+                      (map (fun e => (gI (nthx 0 (gL e)), gI (nthx 1 (gL e)), g_list g_tup (nthx 2 (gL e)))) (gL a2))))
   else if op == "std_classify" then
     match std_classify (gI a1) (gS a2) (gS a3) with
     | Some c => SL [SS "some"; SI (lclass_code c)]
